@@ -155,6 +155,9 @@ def run(ctx):
                  "%s (reached from %s) constructs SimpleDnsError::%s itself: serialising a parsed value can fail" % (
                      b.qname, "a writer" if b not in writers else "the writers", s["rv"]["vn"]),
                  where_of(b, s["sp"]))
+    # ---- R5: the unicast-response / cache-flush bit and the class survive re-serialisation for every class value
+    import c02
+    c02.class_word_rule(ctx, report, "C11-R5")
     report.floor("writer functions scanned", n_w, 75)
     report.assumptions += ["field-value equality across parse(write(parse(x))) is not decided (value-level)",
                            "RCODE / OPCODE discriminants as exported by the compiler"]
